@@ -32,6 +32,9 @@ def instances(full=False):
             for ks in kss:
                 for kind in ('left', 'right', 'stride'):
                     out.append((kind, t, pat, ks))
+    # a user layout providing the submdspan_mapping customization point (mdspan-level submdspan only)
+    for ks in ('i', 'r', 'f', 's', 'if', 'fi', 'rf', 'fr', 'sf', 'ss', 'ri', 'ffi', 'ifr', 'rsf', 'fff', 'iis'):
+        out.append(('ushift', 'i32', tuple([None] * len(ks)), ks))
     return out
 
 def pat_str(pat): return ','.join('D' if p is None else str(p) for p in pat) if pat else '-'
